@@ -176,6 +176,13 @@ type Cron struct {
 	// To check how our Timer is doing
 	timerTarget time.Time
 
+	// running holds the recurring jobs whose functions are
+	// executing now.  Such a job is not in the Timeline, so Rem
+	// (or an Add that replaces the job) takes it out of here to
+	// prevent it from being scheduled again when its function
+	// returns.
+	running map[string]*CronJob
+
 	// PauseDuration determines how long a 'pause' command pauses the processing loop.
 	// (We have the suffix "Duration" to distinguish from the method.)
 	PauseDuration time.Duration
@@ -202,6 +209,7 @@ func NewCron(broadcaster *CronBroadcaster, pause time.Duration, name string, lim
 		broadcaster,
 		time.NewTimer(0 * time.Second),
 		time.Now(),
+		make(map[string]*CronJob),
 		pause,
 		name,
 		limit}
@@ -353,6 +361,9 @@ LOOP:
 					// Danger.  ToDo: Be more careful
 					c.Timeline = c.Timeline[1:]
 					verifJob("Cron.pop", job, now)
+					if !job.Once() {
+						c.running[job.Id] = job
+					}
 					go func(job *CronJob) {
 						c.run(ctx, job)
 					}(job)
@@ -391,8 +402,22 @@ func (c *Cron) run(ctx *core.Context, job *CronJob) {
 	if once {
 	} else {
 		// ToDo: Consider an error here.
-		c.schedule(ctx, job, false)
+		c.reschedule(ctx, job)
 	}
+}
+
+// reschedule puts a recurring job back on the Timeline after its
+// function has returned -- unless the job was removed or replaced in
+// the meantime.
+func (c *Cron) reschedule(ctx *core.Context, job *CronJob) {
+	job.Next = job.Expression.Next(time.Now().UTC())
+
+	c.Lock()
+	if c.running[job.Id] == job {
+		delete(c.running, job.Id)
+		c.insert(ctx, job)
+	}
+	c.Unlock()
 }
 
 func (c *Cron) stopTimer() {
@@ -551,6 +576,10 @@ func (c *Cron) Rem(ctx *core.Context, id string) (bool, error) {
 func (c *Cron) rem(ctx *core.Context, id string) (bool, error) {
 	core.Log(core.INFO|CRON, ctx, "Cron.rem", "id", id, "name", c.Name)
 	found := false
+	if _, running := c.running[id]; running {
+		delete(c.running, id)
+		found = true
+	}
 	for at, job := range c.Timeline {
 		if job.Id == id {
 			copy(c.Timeline[at:], c.Timeline[at+1:])
